@@ -67,7 +67,21 @@ def make_classes(shape):
                     klass.auto_persist(*_members)
 
                 body['persist'] = classmethod(persist)
+            if spec.get('manual'):
+                # members persisted by hand with the public save_members / load_members from overridden state methods
+                def save_instance_state(self, out_state, save_context, _members=tuple(spec['manual'])):
+                    super(self._pv_manual_owner, self).save_instance_state(out_state, save_context)
+                    self.save_members(_members, out_state)
+
+                def load_instance_state(self, saved_state, load_context, _members=tuple(spec['manual'])):
+                    super(self._pv_manual_owner, self).load_instance_state(saved_state, load_context)
+                    self.load_members(_members, saved_state, load_context)
+
+                body['save_instance_state'] = save_instance_state
+                body['load_instance_state'] = load_instance_state
             cls = type(cname, (base,), body)
+            if spec.get('manual'):
+                cls._pv_manual_owner = cls
             if spec.get('hook'):
                 cls._pv_hook_owner = cls
             elif spec['persist'] is not None:
@@ -91,13 +105,15 @@ def _hook_lineage(shape):
     return out
 
 
-def declared(shape, name):
+def declared(shape, name, manual=True):
     byname = {s['name']: s for s in shape}
     members = set()
     cur = byname[name]
     while cur is not None:
         if cur['persist'] is not None:
             members |= set(cur['persist'])
+        if manual and cur.get('manual'):
+            members |= set(cur['manual'])
         cur = byname[cur['base']] if cur['base'] else None
     return members
 
@@ -170,6 +186,14 @@ def enumerate_cases(tier, scope):
                                 members['m1'] = ['method', 'meth_b']
                             yield {'shape': shp, 'instance': {'cls': cls, 'members': members, 'extra': {'zz': 1}}, 'loader': loader, 'load_with': 'none',
                                    'prelude': {'cls': pre_cls, 'loader': pre_loader, 'share_ctx': share}}
+    # members saved by hand with save_members()/load_members() next to the declared ones; contexts built by copyextend()
+    manual = _shape_chain(2, [['m0', 'm1'], ['m2']])
+    manual[1]['manual'] = ['m3', 'm4']
+    for loader in ('default', 'persave', 'persave+global'):
+        for load_with in ('none', 'ctx'):
+            for kinds in ((['method', 'meth_a'], ['method', 'meth_b']), (['savable', {'cls': 'C0', 'members': {'m0': ['val', 1], 'm1': ['val', 2]}}], ['method', 'meth_b']), (['val', 1], ['future', ['result', 5]])):
+                members = {'m0': kinds[0], 'm1': ['val', [1]], 'm2': kinds[1], 'm3': kinds[0], 'm4': kinds[1]}
+                yield {'shape': manual, 'instance': {'cls': 'C1', 'members': members}, 'loader': loader, 'load_with': load_with, 'ctx_extend': True}
     yield {'shape': shape, 'instance': {'cls': 'C2', 'members': {'m0': ['val', 1], 'm1': ['val', 2], 'm2': ['val', 3]}}, 'loader': 'default', 'load_with': 'none', 'tamper': 'pv.gen_classes:DoesNotExist'}
     yield {'shape': shape, 'instance': {'cls': 'C2', 'members': {'m0': ['val', 1], 'm1': ['val', 2], 'm2': ['val', 3]}}, 'loader': 'default', 'load_with': 'none', 'tamper': 'no-colon-here'}
     yield {'shape': shape, 'instance': {'cls': 'C2', 'members': {'m0': ['val', 1], 'm1': ['val', 2], 'm2': ['val', 3]}}, 'loader': 'persave', 'load_with': 'none', 'tamper': 'tag!pv.gen_classes:DoesNotExist'}
@@ -228,6 +252,11 @@ def _cases(draw, tier):
                 candidates.append(spec['name'])
         if candidates:
             byname[draw(st.sampled_from(candidates))]['hook'] = True
+    if draw(st.integers(0, 3)) == 0:
+        spec = draw(st.sampled_from(shape))
+        free = [m for m in MEMBERS if m not in declared(shape, spec['name']) and not any(m in (s2['persist'] or []) for s2 in shape)]
+        if free:
+            spec['manual'] = draw(st.lists(st.sampled_from(free), min_size=1, max_size=2, unique=True))
     case = {
         'shape': shape,
         'instance': draw(_instance(shape, 3)),
@@ -236,6 +265,7 @@ def _cases(draw, tier):
     }
     if draw(st.integers(0, 9)) == 0:
         case['tamper'] = draw(st.sampled_from(['pv.gen_classes:DoesNotExist', 'no-colon-here', 'nomodule.xyz:Thing']))
+    case['ctx_extend'] = draw(st.booleans())
     if draw(st.integers(0, 2)) == 0:
         case['prelude'] = {'cls': draw(st.sampled_from([s['name'] for s in shape])), 'loader': draw(st.sampled_from(['default', 'other'])), 'share_ctx': draw(st.booleans())}
     return case
@@ -343,8 +373,8 @@ def execute(case):
             continue  # declared lazily by the persist() hook: judged through what is saved
         cls = classes[spec['name']]
         got = set(cls._auto_persist or ())
-        if got != declared(shape, spec['name']):
-            v('declaration-set', f"{spec['name']}: auto-persist set {sorted(got)} expected {sorted(declared(shape, spec['name']))}")
+        if got != declared(shape, spec['name'], manual=False):
+            v('declaration-set', f"{spec['name']}: auto-persist set {sorted(got)} expected {sorted(declared(shape, spec['name'], manual=False))}")
     loop = StepLoop()
     asyncio.set_event_loop(loop)
     prev_global = loaders.get_object_loader()
@@ -378,6 +408,8 @@ def execute(case):
                 loaders.set_object_loader(custom)
             elif case['loader'] == 'persave':
                 save_ctx = persistence.LoadSaveContext(loader=custom)
+                if case.get('ctx_extend'):
+                    save_ctx = save_ctx.copyextend(note='extended')  # extending a context keeps its loader
             elif case['loader'] == 'persave+global':
                 # a different loader (of a subclass) is installed globally: the one recorded at save must still win
                 loaders.set_object_loader(loaders_h.OtherLoader())
@@ -402,6 +434,8 @@ def execute(case):
                 load_ctx = shared_ctx if shared_ctx is not None else persistence.LoadSaveContext(loop=loop)
                 if case['load_with'] == 'ctx' and case['loader'] != 'default':
                     load_ctx = persistence.LoadSaveContext(loop=loop, loader=custom)
+                    if case.get('ctx_extend'):
+                        load_ctx = persistence.LoadSaveContext(loader=custom).copyextend(loop=loop)
                 before_loads = loaders_h.TagLoader.owned_loads
                 try:
                     new = persistence.Savable.load(state, load_ctx)
@@ -442,6 +476,10 @@ def execute(case):
     classes_out = ['loader:' + case['loader'] + '/' + case['load_with']] + ['kind:' + k for k in sorted(flat)]
     if case.get('tamper'):
         classes_out.append('tampered')
+    if case.get('ctx_extend') and case['loader'] in ('persave', 'persave+global'):
+        classes_out.append('context-extended')
+    if any(s2.get('manual') for s2 in shape):
+        classes_out.append('manual-save-members')
     if case.get('prelude'):
         classes_out.append('prelude:' + case['prelude']['loader'] + ('/shared-ctx' if case['prelude'].get('share_ctx') else ''))
     if inst['cls'] in _hook_lineage(shape):
